@@ -290,15 +290,48 @@ def check_ordering(ctx: Ctx, case: dict) -> None:
 # record tables
 # ----------------------------------------------------------------------------
 
+def _excess_bins_class() -> Any:
+    from moptipy.api.objective import Objective
+
+    class ExcessBins(Objective):
+        """User-defined objective: bins used above the lower bound (0 for an
+        optimal packing) - values and lower bound 0 occur."""
+
+        def __init__(self, instance: Any) -> None:
+            super().__init__()
+            self.instance = instance
+
+        def evaluate(self, x: Any) -> int:
+            return int(x.n_bins) - int(self.instance.lower_bound_bins)
+
+        def lower_bound(self) -> int:
+            return 0
+
+        def upper_bound(self) -> int:
+            return int(self.instance.n_items) - int(
+                self.instance.lower_bound_bins)
+
+        def is_always_integer(self) -> bool:
+            return True
+
+        def __str__(self) -> str:
+            return "excessBins"
+
+    return ExcessBins
+
+
 def build_results(case: dict) -> list:
     """The PackingResult records described by a table case."""
     from moptipy.evaluation.end_results import EndResult
     from moptipyapps.binpacking2d import packing_result as pr
+    factories = list(pr.DEFAULT_OBJECTIVES)
+    if case.get("custom"):
+        factories.append(_excess_bins_class())
     built = []
     for ent in case["insts"]:
         inst = gen_bp.build_instance(ent["inst"], name=ent["name"])
         packs = [gen_bp.decode(inst, p["x"], p["enc"]) for p in ent["packs"]]
-        objs = [f(inst) for f in pr.DEFAULT_OBJECTIVES]
+        objs = [f(inst) for f in factories]
         built.append((inst, packs, objs))
     cache: dict = {}
     res = []
@@ -315,7 +348,8 @@ def build_results(case: dict) -> list:
             None if r["max_fes_extra"] is None else tot_fe + r[
                 "max_fes_extra"], r["max_t"])
         res.append(sut("from_packing_and_end_result",
-                       pr.from_packing_and_end_result, er, y, cache=cache))
+                       pr.from_packing_and_end_result, er, y, factories,
+                       cache=cache))
     return res
 
 
